@@ -64,6 +64,8 @@ def ident(ctx):
                     a = set(type_classes(ctx.t.expr_type(l, fi))) & ent
                     if a:
                         ct = ctx.t.expr_type(r, fi)
+                        if ct is not None and ct[0] in ('list', 'deque', 'set', 'tuple') and len(ct) > 1:
+                            ct = ct[1] if not isinstance(ct[1], list) else ('union', ct[1])
                         b = set(type_classes(ct)) & ent
                         if a & b:
                             site = (sorted(a & b), 'eq')
